@@ -56,7 +56,7 @@ def _case(draw):
         spec["kerning"] = [[safe[0], safe[1], -20]]
         spec["features"] = "feature liga { sub %s by %s; } liga;\n" % (safe[0], safe[1])
     if draw(st.booleans()):
-        vals = st.sampled_from(["a", "uni0061", "A", "x y", "", "f_i", "Z#", "uniFFFF", "b", "one", "two", "ab", "ab.1", "a.1", "Q" * 70 + "-x"])
+        vals = st.sampled_from(["a", "uni0061", "A", "x y", "", "f_i", "Z#", "uniFFFF", "b", "one", "two", "ab", "ab.1", "a.1", "Q" * 70 + "-x", "R" * 63, "S" * 62 + "-t", "T" * 64])
         spec["lib"]["public.postscriptNames"] = {n: draw(vals) for n in perm if draw(st.booleans())}
     case = {"spec": spec, "module": draw(st.sampled_from(["ufoLib2", "defcon"])), "flavour": draw(st.sampled_from(["ttf", "cff", "cff2"]))}
     sw = draw(st.sampled_from(["arg", "arg", "lib-useProductionNames", "lib-keepGlyphNames", "glyphs-legacy", "lib-keepGlyphNames-false"]))
